@@ -2,10 +2,12 @@
    (collection.go, map.go, tuple.go, udt.go) composed over the element codecs, per protocol version, with their error
    branches and a PANIC outcome exactly where the Go code can panic.
    Level: abstract values [cval].  Encode takes the value the extractor yields element by element; Decode is the
-   behaviour for an untyped destination ( *interface{} ): collections are created by reflect.MakeSlice(preferred, size, size)
-   (panics on a negative size - defect F7), maps by reflect.MakeMapWithSize (a negative size does not panic; keys are
-   pointers, so entries never collapse), tuples into []interface{}, UDTs into map[string]interface{}.
-   A *[]T destination behaves identically at this level (adjustSliceLength -> MakeSlice / SetLen panic the same way).
+   behaviour for an untyped destination ( *interface{} : preferred Go types all the way down; map keys are pointers, so
+   entries never collapse; tuples into []interface{}, UDTs into map[string]interface{}) and equally for a typed destination
+   of a matching representation that does not merge entries.
+   State of /repo modelled: with the fixes D1 (preferred map key types are always valid: no panic in reflect.MapOf),
+   D2 (negative wire count -> error, used to reach reflect.MakeSlice), D3 (v2: element longer than 65535 bytes -> error, used to
+   be written with a wrapped length) and D4 (a UDT value may stop early: missing trailing fields are NULL).
    Definitions only. *)
 From Coq Require Import ZArith List Bool String.
 From GCNP Require Import base.GoInt base.Bytes spec.SpecCql model.CqlWire.
@@ -25,7 +27,11 @@ Definition writeCollectionSize (v : Z) (size : Z) : outcome bytes :=
 (* one element / key / value appended to the buffer: WriteBytes, or (v2) refusal of nil then WriteShortBytes *)
 Definition write_elem (v : Z) (enc : option bytes) : outcome bytes :=
   if uses4 v then OK (write_bytes enc)
-  else match enc with None => ERR | Some b => OK (write_short_bytes b) end.
+  else match enc with
+       | None => ERR                                                    (* collectionElementNil / errNilMapKey / errNilMapValue *)
+       | Some b => if 65535 <? zlen b then ERR                          (* collectionElementTooLarge (D3) *)
+                   else OK (write_short_bytes b)
+       end.
 
 Section Encode.
   Variable v : Z.
@@ -127,7 +133,7 @@ Section Decode.
 
   Definition all_read {A} (r : A * bytes) : outcome A := if zlen (snd r) =? 0 then OK (fst r) else ERR.
 
-  (* Codec.Decode into an untyped destination; VNull when wasNull *)
+  (* Codec.Decode; VNull when wasNull *)
   Fixpoint m_decode (t : cqltype) (src : option bytes) {struct t} : outcome cval :=
     match t with
     | TScalar s => dec_scalar s src
@@ -136,7 +142,7 @@ Section Decode.
         else
           r <-! readCollectionSize (src_bytes src);
           let (size, rest) := r in
-          if size <? 0 then PANIC                                     (* reflect.MakeSlice(targetType, size, size) *)
+          if size <? 0 then ERR                                       (* collectionSizeNegative (D2) *)
           else
             es <-! dec_elems (m_decode e) (S (List.length rest)) size rest;
             xs <-! all_read es; OK (VList xs)
@@ -145,7 +151,8 @@ Section Decode.
         else
           r <-! readCollectionSize (src_bytes src);
           let (size, rest) := r in
-          (* reflect.MakeMapWithSize with a negative size does not panic; the loop does not run *)
+          if size <? 0 then ERR                                       (* collectionSizeNegative (D2) *)
+          else
           es <-! dec_entries (m_decode k) (m_decode w) (S (List.length rest)) size rest;
           kvs <-! all_read es; OK (VMap kvs)
     | TTuple fs =>
@@ -166,7 +173,9 @@ Section Decode.
                    match fs with
                    | [] => OK ([], src)
                    | f :: fs' =>
-                       e <-! read_bytes src; x <-! m_decode f (fst e); rest <-! fields fs' (snd e);
+                       (* D4: if reader.Len() == 0 the field is absent: Decode(nil) *)
+                       e <-! (match src with [] => OK (None, []) | _ => read_bytes src end);
+                       x <-! m_decode f (fst e); rest <-! fields fs' (snd e);
                        OK (x :: fst rest, snd rest)
                    end) fs (src_bytes src);
           xs <-! all_read r; OK (VUdt xs)
